@@ -24,10 +24,18 @@ def find_grad_validators(index) -> dict:
         for n in ast.walk(expr):
             if isinstance(n, ast.Attribute) and n.attr in ("requires_grad", "is_leaf", "retains_grad"):
                 out.add(n.attr)
-            if isinstance(n, ast.Call) and isinstance(n.func, ast.Name) and depth < 2:
-                callee = index.resolve_name(fi.module, n.func.id)
+            if isinstance(n, ast.Call) and depth < 2:
                 from .index import FunctionInfo
 
+                callee = None
+                if isinstance(n.func, ast.Name):
+                    callee = index.resolve_name(fi.module, n.func.id)
+                elif isinstance(n.func, ast.Attribute) and isinstance(n.func.value, ast.Name):
+                    # cls.pred(t) / self.pred(t) / ClassName.pred(t)
+                    owner = fi.cls if n.func.value.id in ("self", "cls") else index.resolve_name(fi.module, n.func.value.id)
+                    if owner is not None and hasattr(owner, "lookup"):
+                        r_ = owner.lookup(n.func.attr)
+                        callee = r_[1] if r_ else None
                 if isinstance(callee, FunctionInfo):
                     for v in returned_exprs(callee.node):
                         out |= attrs_of(v, callee, depth + 1)
